@@ -573,6 +573,188 @@ theorem confirm_malformed_fatal_identity (pre : List Stanza) (m : Stanza) (post 
   have := run_halt_when_listening (identityStep_noEndHalt ui dec) ⟨st, false, []⟩ pre e₀ hl m post e _ _ hs
   simp only [identityClient, this, List.append_nil, and_self]
 
+/-! ## the final result -/
+
+/-- A wrap never succeeds with zero stanzas: a successful result carries exactly
+    the stanzas of the `recipient-stanza` messages received before `done`, in
+    order — at least one — and the arguments of the `labels` message (`none`
+    when there was none). And a clean `done` that reaches a listening client
+    which has received no `recipient-stanza` is the error "no stanzas". -/
+theorem no_stanza_wrap_fails (c : Conv) :
+    (∀ ws l, (R c).result = .ok (ws, l) → ws ≠ [] ∧ ws = wrappedOf c.msgs ∧ l = labelsOf c.msgs) ∧
+    (∀ pre m post e₀, c.msgs = pre ++ m :: post → Listening (R ⟨pre, e₀⟩) e₀ →
+      (∀ x ∈ pre, x.type ≠ "recipient-stanza") → m.type = "done" →
+      (R c).result = .error .noStanzas ∧ (R c).replies = (R ⟨pre, e₀⟩).replies) := by
+  constructor
+  · intro ws l h
+    have := recipient_ok_spec ui dec ⟨st, [], none⟩ c.msgs c.fin ws l h
+    simpa using this
+  · intro pre m post e₀ hc hl hpre hm
+    have hst : (run (recipientStep ui dec) ⟨st, [], none⟩ pre e₀).state.stanzas = [] :=
+      run_state_inv (fun s : RState σ => s.stanzas = []) (fun x => x.type ≠ "recipient-stanza")
+        (fun s x s' r hx hs h => by rw [recipientStep_stanzas_other ui dec s s' x r hx h]; exact hs)
+        _ rfl pre hpre e₀
+    have hd := recipientStep_done ui dec (run (recipientStep ui dec) ⟨st, [], none⟩ pre e₀).state m hm
+    rw [hst] at hd
+    have := run_halt_when_listening (recipientStep_noEndHalt ui dec) ⟨st, [], none⟩ pre e₀ hl m post c.fin _ _ hd
+    simp only [recipientClient, hc, this, List.append_nil, if_true, and_self]
+
+/-- An unwrap succeeds only with the non-empty body of the `file-key` message
+    received before `done`. A clean `done` reaching a listening client that has
+    received no file key (no `file-key` message, or only one with an empty body)
+    yields "incorrect identity" — the error after which `age.Decrypt` tries the
+    next identity — not a hard error. -/
+theorem no_filekey_incorrect_identity (c : Conv) :
+    (∀ k, (I c).result = .ok k → k ≠ [] ∧ fileKeyOf c.msgs = some k) ∧
+    (∀ pre m post e₀, c.msgs = pre ++ m :: post → Listening (I ⟨pre, e₀⟩) e₀ →
+      (∀ x ∈ pre, x.type = "file-key" → x.body = []) → m.type = "done" →
+      (I c).result = .error .incorrectIdentity ∧ (I c).replies = (I ⟨pre, e₀⟩).replies) := by
+  constructor
+  · intro k h
+    have := identity_ok_spec ui dec ⟨st, false, []⟩ c.msgs c.fin k (fun _ => rfl) h
+    simpa using this
+  · intro pre m post e₀ hc hl hpre hm
+    have hst : (run (identityStep ui dec) ⟨st, false, []⟩ pre e₀).state.fileKey = [] := by
+      refine run_state_inv (fun s : IState σ => s.fileKey = []) (fun x => x.type = "file-key" → x.body = [])
+        ?_ _ rfl pre hpre e₀
+      intro s x s' r hx hs h
+      by_cases hf : x.type = "file-key"
+      · rw [(identityStep_filekey_next ui dec s s' x r hf h).2.2.1]; exact hx hf
+      · rw [(identityStep_key_other ui dec s s' x r hf h).2]; exact hs
+    have hd := identityStep_done ui dec (run (identityStep ui dec) ⟨st, false, []⟩ pre e₀).state m hm
+    rw [hst] at hd
+    have := run_halt_when_listening (identityStep_noEndHalt ui dec) ⟨st, false, []⟩ pre e₀ hl m post c.fin _ _ hd
+    simp only [identityClient, hc, this, List.append_nil, if_true, and_self]
+
+/-! ## a plugin that stops mid-conversation is an error -/
+
+/-- If the plugin's output ends (cleanly, inside a stanza, or with malformed
+    framing) without a `done`, the wrap fails with a hard error whatever came
+    before: never a success. -/
+theorem eof_is_error_recipient (msgs : List Stanza) (e : End) (h : noDone msgs) :
+    Hard (R ⟨msgs, e⟩).result :=
+  run_hard (fun m => m.type ≠ "done")
+    (fun s m rs res hq hs => recipientStep_hardHalt ui dec s m rs res hq hs) _ msgs e h
+
+/-- the same for unwrap: never a success and never "incorrect identity" -/
+theorem eof_is_error_identity (msgs : List Stanza) (e : End) (h : noDone msgs) :
+    Hard (I ⟨msgs, e⟩).result :=
+  run_hard (fun m => m.type ≠ "done")
+    (fun s m rs res hq hs => identityStep_hardHalt ui dec s m rs res hq hs) _ msgs e h
+
+/-- what `Hard` excludes -/
+theorem hard_excludes {α : Type} (res : Except ClientErr α) (h : Hard res) :
+    (∀ v, res ≠ .ok v) ∧ res ≠ .error .incorrectIdentity ∧ res ≠ .error .noStanzas :=
+  ⟨h.not_ok, h.not_incorrect, h.not_noStanzas⟩
+
+/-- Precisely: a conversation of any length made only of prompts for a message
+    or a value and of commands unknown to both machines is answered message by
+    message, and when the stream then ends the result is the read error. -/
+theorem eof_after_harmless_messages (msgs : List Stanza) (e : End) (h : ∀ m ∈ msgs, harmless m.type) :
+    (Listening (R ⟨msgs, e⟩) e ∧ (R ⟨msgs, e⟩).replies.length = msgs.length) ∧
+    (Listening (I ⟨msgs, e⟩) e ∧ (I ⟨msgs, e⟩).replies.length = msgs.length) :=
+  ⟨run_all_next (fun m => harmless m.type) (fun s m hm => recipientStep_harmless ui dec s m hm) _ msgs h e,
+   run_all_next (fun m => harmless m.type) (fun s m hm => identityStep_harmless ui dec s m hm) _ msgs h e⟩
+
 end
+/-! ## non-vacuity: concrete conversations evaluated by the kernel -/
+
+section Examples
+
+/-- a UI whose state counts the callback invocations; every callback answers -/
+def uiAll : UI Nat :=
+  { display := some fun n _ => (n + 1, true)
+    request := some fun n _ secret => (n + 1, some (if secret then [115] else [112]))
+    confirm := some fun n prompt _ _ => (n + 1, some (prompt != [110])) }
+
+/-- a UI without any callback -/
+def uiNone : UI Nat := { display := none, request := none, confirm := none }
+
+/-- a toy decoder: knows the base64 of "yes" and "no" -/
+def dec0 (s : String) : Option Bytes :=
+  if s = "eWVz" then some [121, 101, 115] else if s = "bm8" then some [110, 111] else none
+
+def rs0 : Stanza := ⟨"recipient-stanza", ["0", "X25519", "abc"], [1, 2]⟩
+def rsPlus0 : Stanza := ⟨"recipient-stanza", ["+0", "scrypt"], []⟩
+def rs1 : Stanza := ⟨"recipient-stanza", ["1", "X25519", "abc"], [1, 2]⟩
+def fk0 : Stanza := ⟨"file-key", ["0"], [9, 9]⟩
+def fk0e : Stanza := ⟨"file-key", ["-0"], []⟩
+def labels0 : Stanza := ⟨"labels", [], []⟩
+def msg1 : Stanza := ⟨"msg", [], [104, 105]⟩
+def confirm1 : Stanza := ⟨"confirm", ["eWVz", "bm8"], [113]⟩
+def confirmBad : Stanza := ⟨"confirm", ["e"], [113]⟩
+def unknown1 : Stanza := ⟨"frobnicate", ["a"], [0]⟩
+def error1 : Stanza := ⟨"error", [], [98, 111, 111, 109]⟩
+
+/-- a complete successful wrap: every message answered, unknown → unsupported,
+    stanzas in order, labels present but empty, three callbacks invoked -/
+example :
+    let o := recipientClient uiAll dec0 0 false "age1verif1q" [7] "grease-1"
+      ⟨[rs0, labels0, msg1, confirm1, unknown1, ⟨"request-public", [], []⟩, rsPlus0, doneS, rs1], .eof⟩
+    o.replies = [okS, okS, okS, okChoice true, unsupportedS, okBody [112], okS] ∧
+    o.result = .ok ([⟨"X25519", ["abc"], [1, 2]⟩, ⟨"scrypt", [], []⟩], some []) ∧ o.ui = 3 := by
+  decide
+
+/-- the hypotheses "listening after `pre`" are satisfiable, with and without callbacks -/
+example : Listening (recipientClient uiNone dec0 0 true "x" [] "g" ⟨[msg1, confirm1, rs0], .eof⟩) .eof := by
+  unfold Listening; decide
+example : Listening (identityClient uiAll dec0 0 "x" [rs0] "g" ⟨[msg1, fk0, unknown1], .malformed⟩) .malformed := by
+  unfold Listening; decide
+
+/-- without callbacks every prompt is answered `fail` — even an undecodable confirm -/
+example : (identityClient uiNone dec0 0 "x" [] "g" ⟨[msg1, confirm1, confirmBad, ⟨"request-secret", [], []⟩], .eof⟩).replies
+    = [failS, failS, failS, failS] := by decide
+
+/-- with a Confirm callback the undecodable confirm is fatal and unanswered -/
+example :
+    let o := identityClient uiAll dec0 0 "x" [] "g" ⟨[msg1, confirmBad, doneS], .eof⟩
+    o.replies = [okS] ∧ o.result = .error .protocol ∧ o.ui = 1 := by decide
+
+/-- index 1 is refused; `labels` twice is refused even when the first had no arguments -/
+example : (recipientClient uiAll dec0 0 false "x" [] "g" ⟨[rs0, rs1, doneS], .eof⟩).result = .error .protocol := by decide
+example :
+    let o := recipientClient uiAll dec0 0 false "x" [] "g" ⟨[labels0, rs0, labels0, doneS], .eof⟩
+    o.replies = [okS, okS] ∧ o.result = .error .protocol := by decide
+
+/-- a second `file-key` is refused although the first had an empty body; an
+    empty file key alone is "incorrect identity"; a real one is returned -/
+example : (identityClient uiAll dec0 0 "x" [] "g" ⟨[fk0e, fk0, doneS], .eof⟩).result = .error .protocol := by decide
+example : (identityClient uiAll dec0 0 "x" [] "g" ⟨[fk0e, doneS], .eof⟩).result = .error .incorrectIdentity := by decide
+example : (identityClient uiAll dec0 0 "x" [] "g" ⟨[unknown1, doneS], .eof⟩).result = .error .incorrectIdentity := by decide
+example : (identityClient uiAll dec0 0 "x" [] "g" ⟨[rs0, fk0, doneS, fk0], .eof⟩).result = .ok [9, 9] := by decide
+
+/-- `error` is acknowledged, then aborts with the text; no stanza → no success; EOF → error -/
+example :
+    let o := recipientClient uiAll dec0 0 false "x" [] "g" ⟨[rs0, error1, doneS], .eof⟩
+    o.replies = [okS, okS] ∧ o.result = .error (.pluginError [98, 111, 111, 109]) := by decide
+example : (recipientClient uiAll dec0 0 false "x" [] "g" ⟨[labels0, doneS], .eof⟩).result = .error .noStanzas := by decide
+example : (recipientClient uiAll dec0 0 false "x" [] "g" ⟨[rs0, labels0], .eof⟩).result = .error (.ended .eof) := by decide
+
+/-- strconv.Atoi on the index argument -/
+example : atoi "0" = some 0 ∧ atoi "+0" = some 0 ∧ atoi "-0" = some 0 ∧ atoi "00" = some 0 ∧
+    atoi "0000000000000000000000" = some 0 ∧ atoi "1" = some 1 ∧ atoi "-1" = some (-1) ∧
+    atoi "0x0" = none ∧ atoi "" = none ∧ atoi " 0" = none ∧ atoi "+" = none ∧ atoi "0_0" = none ∧
+    atoi "9223372036854775807" = some 9223372036854775807 ∧ atoi "9223372036854775808" = none ∧
+    atoi "-9223372036854775808" = some (-9223372036854775808) ∧ atoi "-9223372036854775809" = none := by
+  decide
+
+/-- `badIndex` and `harmless` are satisfiable / refutable -/
+example : badIndex rs1 ∧ ¬ badIndex rs0 ∧ badIndex ⟨"file-key", [], []⟩ := by
+  refine ⟨?_, ?_, ?_⟩
+  · intro idx rest h; cases h; decide
+  · intro h; exact h "0" _ rfl (by decide)
+  · intro idx rest h; cases h
+example : harmless "msg" ∧ harmless "frobnicate" ∧ ¬ harmless "done" := by
+  unfold harmless; decide
+
+/-- phase 1 of an unwrap of two stanzas -/
+example : (identityClient uiNone dec0 0 "AGE-PLUGIN-VERIF-1Q" [⟨"X25519", ["abc"], [1]⟩, ⟨"verif", [], []⟩] "grease-7"
+      ⟨[], .eof⟩).phase1 =
+    [⟨"add-identity", ["AGE-PLUGIN-VERIF-1Q"], []⟩, ⟨"grease-7", [], []⟩,
+     ⟨"recipient-stanza", ["0", "X25519", "abc"], [1]⟩, ⟨"recipient-stanza", ["0", "verif"], []⟩,
+     ⟨"done", [], []⟩] := by decide
+
+end Examples
+
 end Props.C16
 end AgeModel
